@@ -8,8 +8,23 @@ use crate::faults;
 use crate::gen::{self, GenCfg};
 use crate::spec::*;
 
+thread_local! {
+    static PARAM_NAMES: std::cell::RefCell<Option<Vec<String>>> = std::cell::RefCell::new(None);
+}
+pub static HARVESTED_PARAMS: std::sync::OnceLock<Vec<String>> = std::sync::OnceLock::new();
+
 pub fn cfg(d: &mut Dna) -> GenCfg {
     let mut c = GenCfg::full();
+    // generic parameters are partly named after identifiers the expansion itself uses (H, V, M, ..): state that
+    // leaks from one expansion into the next usually hangs on such a name
+    if let Some(p) = HARVESTED_PARAMS.get() {
+        if !p.is_empty() {
+            let mut names: Vec<String> = vec!["T".into(), "U".into(), "W".into()];
+            names.extend(p.iter().cloned());
+            c.typaram_names = Some(names.clone());
+            c.const_names = Some(names);
+        }
+    }
     c.kinds = vec![Kind::Struct, Kind::Enum, Kind::Union];
     if d.chance(70) {
         c.must = vec![Tr::Into];
@@ -86,6 +101,11 @@ pub fn unstable(src: &str) -> Option<String> {
 
 /// child mode: print `index hash` for every case so that the parent can compare processes
 pub fn child(ctx: &Ctx, args: &[String]) -> i32 {
+    {
+        let (pool, _, _) = crate::props::c19::harvest(ctx.seed);
+        let caps: Vec<String> = pool.into_iter().filter(|n| n.len() <= 2 && n.chars().next().map(|c| c.is_uppercase()).unwrap_or(false)).collect();
+        let _ = HARVESTED_PARAMS.set(caps);
+    }
     let n: usize = args.get(1).and_then(|s| s.parse().ok()).unwrap_or(100);
     let trees = check::draw(ctx.seed, 0xC16, n, 420);
     for (i, t) in trees.iter().enumerate() {
@@ -116,6 +136,11 @@ pub fn run(ctx: &Ctx) -> i32 {
             }
         }
         return rep.finish();
+    }
+    {
+        let (pool, _, _) = crate::props::c19::harvest(ctx.seed);
+        let caps: Vec<String> = pool.into_iter().filter(|n| n.len() <= 2 && n.chars().next().map(|c| c.is_uppercase()).unwrap_or(false)).collect();
+        let _ = HARVESTED_PARAMS.set(caps);
     }
     let n = ctx.scale(15000, 100000);
     let mut trees = check::draw(ctx.seed, 0xC16, n, 420);
@@ -163,6 +188,41 @@ pub fn run(ctx: &Ctx) -> i32 {
             let (s2, _, _) = request(&best);
             let m2 = unstable(&s2).or_else(|| unstable(&s2)).unwrap_or_else(|| "unstable (did not reproduce after shrinking)".into());
             rep.violations.push(Failure { msg: m2, dna: best, variant: "in-process".into(), source: s2, unit_body: None });
+        }
+    }
+    // history independence: one thread expands the corpus forwards and then backwards; every request must come out as
+    // in the (parallel, differently ordered) first pass, whatever was expanded before it
+    {
+        let srcs: Vec<String> = dnas.iter().take(ctx.scale(4000, 30000)).map(|d| request(d).0).collect();
+        let fwd: Vec<u64> = srcs.iter().map(|s| fnv64(&outcome_text(&engine::expand_src(s)))).collect();
+        let bwd: Vec<u64> = {
+            let mut v: Vec<u64> = srcs.iter().rev().map(|s| fnv64(&outcome_text(&engine::expand_src(s)))).collect();
+            v.reverse();
+            v
+        };
+        let mut reported = 0;
+        for i in 0..srcs.len() {
+            rep.count("history_comparisons", 2);
+            if fwd[i] != my_hashes[i] || bwd[i] != my_hashes[i] {
+                let nt = request(&dnas[i]).1;
+                if open_f3 && nt >= 2 {
+                    continue;
+                }
+                if reported < 5 {
+                    reported += 1;
+                    // confirm against a pristine thread: the request alone, nothing before it
+                    let s = srcs[i].clone();
+                    let alone = std::thread::spawn(move || outcome_text(&engine::expand_src(&s))).join().unwrap_or_default();
+                    let now = outcome_text(&engine::expand_src(&srcs[i]));
+                    rep.violations.push(Failure {
+                        msg: format!("the expansion depends on what was expanded before it in the same thread:\n--- alone in a fresh thread: {}\n--- after other requests:    {}", alone.chars().take(500).collect::<String>(), now.chars().take(500).collect::<String>()),
+                        dna: dnas[i].clone(),
+                        variant: "history".into(),
+                        source: srcs[i].clone(),
+                        unit_body: None,
+                    });
+                }
+            }
         }
     }
     // across processes
